@@ -202,7 +202,11 @@ func c12Workloads() []c12Workload {
 			grams = append(grams, g)
 		}
 	})
-	for _, seed := range []string{"N0=(any (seq N0 b) a)", "N0=(seq (any N0 a (opt N0)) b)", "N0=(any (seq (opt b) N0 b) a)", "N0=(any (seq N0 b N0) a)"} {
+	for _, seed := range []string{"N0=(any (seq N0 b) a)", "N0=(seq (any N0 a (opt N0)) b)", "N0=(any (seq (opt b) N0 b) a)", "N0=(any (seq N0 b N0) a)",
+		// several memoized parsers that meet at the same positions with different outcomes
+		"N0=(any (seq N1 a) a); N1=(any (seq N0 b) b)", "S0!=a; S1!=b; root=(seq (any S0 S1) (any S0 S1))",
+		"S0!=(any a (seq a b)); S1!=(choice b a); root=(any (seq S0 S1) (seq S1 S0))", "N0=(any (seq N0 a) S0 a); S0!=(opt b); root=(seq N0 S0)",
+		"S0!=(opt b); S1!=a; S2!=(seq a b); root=(seq S0 (any S1 S2) (any S2 S1 S0))"} {
 		if g, err := gram.Parse(seed); err == nil {
 			grams = append(grams, g)
 		}
@@ -234,8 +238,8 @@ func c12GrammarParser(gi int) parsley.Parser {
 	if p, ok := c12Built[gi]; ok {
 		return p
 	}
-	b := impl.Build(c12Grammars[gi], impl.Options{Interp: impl.Concat})
-	p := combinator.Sentence(&b.NT[0])
+	b := impl.Build(c12Grammars[gi], impl.Options{Interp: impl.Concat, Bare: true})
+	p := combinator.Sentence(b.Root)
 	c12Built[gi] = p
 	return p
 }
